@@ -58,6 +58,53 @@ func b01(b bool) string {
 	return "0"
 }
 
+// keys names the script and log of each plugin: its name, or name@position when several
+// plugins of the scenario are given under the same name (-p "name --inst=position").
+func (sc scenario) keys() []string {
+	n := map[string]int{}
+	for _, p := range sc.plugins {
+		n[p.name]++
+	}
+	ks := make([]string, len(sc.plugins))
+	for i, p := range sc.plugins {
+		ks[i] = p.name
+		if n[p.name] > 1 {
+			ks[i] = fmt.Sprintf("%s@%d", p.name, i)
+		}
+	}
+	return ks
+}
+
+func (sc scenario) sameNames() bool {
+	for i, k := range sc.keys() {
+		if k != sc.plugins[i].name {
+			return true
+		}
+	}
+	return false
+}
+
+// orNamed: the error output can only tell plugins apart by name, so the "named" bit of
+// an answer is shared by the plugins given under one name (applied to the model's answer).
+func (sc scenario) orNamed(ans string) string {
+	parts := strings.Split(ans, "; ")
+	if len(parts) != len(sc.plugins)+1 {
+		return ans
+	}
+	any := map[string]bool{}
+	for i, p := range sc.plugins {
+		if strings.HasPrefix(parts[i+1], "1") {
+			any[p.name] = true
+		}
+	}
+	for i, p := range sc.plugins {
+		if any[p.name] && strings.HasPrefix(parts[i+1], "0") {
+			parts[i+1] = "1" + parts[i+1][1:]
+		}
+	}
+	return strings.Join(parts, "; ")
+}
+
 func (sc scenario) opLine(trace bool) string {
 	var sb strings.Builder
 	op := "H"
@@ -180,11 +227,16 @@ func runScenario(sc scenario, idx int) runResult {
 	}
 	os.WriteFile(filepath.Join(dir, "src", "root.thrift"), []byte(prog), 0o644)
 	args := []string{"--out", filepath.Join(dir, "out"), "--pkg-prefix", "x"}
-	for _, p := range sc.plugins {
+	keys := sc.keys()
+	for i, p := range sc.plugins {
 		fs := fakeScript{exitAtStart: p.exitAtStart, exitCode: p.exitCode, steps: map[string]fakeStep{
 			"hs": {p.hs.exits, p.hs.out}, "gen": {p.gen.exits, p.gen.out}, "bye": {p.bye.exits, p.bye.out}}}
-		os.WriteFile(filepath.Join(scripts, p.name+".script"), []byte(fs.text()), 0o644)
-		args = append(args, "-p", p.name)
+		os.WriteFile(filepath.Join(scripts, keys[i]+".script"), []byte(fs.text()), 0o644)
+		if keys[i] != p.name {
+			args = append(args, "-p", p.name+" --inst="+strings.TrimPrefix(keys[i], p.name+"@"))
+		} else {
+			args = append(args, "-p", p.name)
+		}
 	}
 	args = append(args, filepath.Join(dir, "src", "root.thrift"))
 	tmo := 20 * time.Second
@@ -225,8 +277,8 @@ func runScenario(sc scenario, idx int) runResult {
 		<-done
 	}
 	// the moment of truth for "reaped": did every started plugin finish before the host did?
-	for _, p := range sc.plugins {
-		_, _, _, exited := parseLog(filepath.Join(scripts, p.name+".log"))
+	for i := range sc.plugins {
+		_, _, _, exited := parseLog(filepath.Join(scripts, keys[i]+".log"))
 		res.reaped = append(res.reaped, exited)
 	}
 	if b, err := os.ReadFile(errPath); err == nil {
@@ -234,8 +286,8 @@ func runScenario(sc scenario, idx int) runResult {
 	}
 	// now let stragglers finish (or find them still running)
 	deadline := time.Now().Add(2 * time.Second)
-	for _, p := range sc.plugins {
-		_, pid, _, _ := parseLog(filepath.Join(scripts, p.name+".log"))
+	for i := range sc.plugins {
+		_, pid, _, _ := parseLog(filepath.Join(scripts, keys[i]+".log"))
 		if pid == 0 {
 			continue
 		}
@@ -250,8 +302,8 @@ func runScenario(sc scenario, idx int) runResult {
 		}
 	}
 	syscall.Kill(-cmd.Process.Pid, syscall.SIGKILL) // whatever is left of the group
-	for _, p := range sc.plugins {
-		v, pid, reqs, _ := parseLog(filepath.Join(scripts, p.name+".log"))
+	for i := range sc.plugins {
+		v, pid, reqs, _ := parseLog(filepath.Join(scripts, keys[i]+".log"))
 		res.views = append(res.views, v)
 		res.pids = append(res.pids, pid)
 		res.reqs = append(res.reqs, reqs)
@@ -445,7 +497,12 @@ func c16Check(c *checker, scs []scenario, how string) {
 		if i < 2 {
 			c.rep.Sample(sc.label + ": " + op + " => " + ans)
 		}
-		c.expect("C16 thriftrw+fake plugins vs host automaton ("+sc.label+")", op, ans)
+		if sc.sameNames() {
+			c.expectCanon("C16 thriftrw+fake plugins vs host automaton ("+sc.label+")", op, ans, sc.orNamed)
+			c.rep.Hist("same-name plugins", "yes")
+		} else {
+			c.expect("C16 thriftrw+fake plugins vs host automaton ("+sc.label+")", op, ans)
+		}
 
 		// ---- implementation-side oracles (no model) ----
 		fail := func(kind, why string) {
@@ -527,6 +584,8 @@ func c16ExitOracle(c *checker, sc scenario, res runResult, op, ans string) {
 		}
 	}
 	anyFault := !sc.coreOK
+	faultyName := map[string]bool{}
+	var clean []string
 	for _, p := range sc.plugins {
 		accepted := !p.exitAtStart && p.hs.good
 		faulty := p.exitCode != 0 || !accepted
@@ -547,12 +606,17 @@ func c16ExitOracle(c *checker, sc scenario, res runResult, op, ans string) {
 		}
 		if faulty {
 			anyFault = true
+			faultyName[p.name] = true
+		} else {
+			clean = append(clean, p.name)
 		}
 		if named && !named2(res.stderr, p.name) && res.exit != 0 {
 			c.oracle("C16 failure does not name the plugin", op, ans, sc.label+": "+p.name+" failed (handshake/generate/goodbye/exit status) but the error output does not mention it: "+firstLine(res.stderr))
 		}
-		if !faulty && named2(res.stderr, p.name) && !conflictPossible(sc) {
-			c.oracle("C16 error output names a plugin that did not fail", op, ans, sc.label+": "+p.name+" | "+firstLine(res.stderr))
+	}
+	for _, name := range clean {
+		if !faultyName[name] && named2(res.stderr, name) && !conflictPossible(sc) {
+			c.oracle("C16 error output names a plugin that did not fail", op, ans, sc.label+": "+name+" | "+firstLine(res.stderr))
 		}
 	}
 	if !conflictPossible(sc) {
@@ -730,6 +794,37 @@ func runC16(c *checker, r *rng.R) {
 	c16Check(c, scs, "multi-plugin-random")
 	scs = nil
 
+	// 3b. the same plugin given more than once (-p "alpha --inst=0" -p "alpha --inst=2"): separate
+	// processes, each owed the whole conversation
+	nSame := 150
+	if thorough {
+		nSame = 900
+	}
+	patterns := [][]string{{"alpha", "alpha"}, {"alpha", "alpha", "beta"}, {"alpha", "beta", "alpha"}, {"beta", "alpha", "alpha"}, {"alpha", "alpha", "alpha"}}
+	for i := 0; i < nSame; i++ {
+		pat := patterns[i%len(patterns)]
+		sc := scenario{label: fmt.Sprintf("same-name-%d", i), coreOK: i < len(patterns) || !r.Chance(1, 10)}
+		var kinds []string
+		for k, name := range pat {
+			p := conforming(name)
+			p.genFiles = []kv{{fmt.Sprintf("%s/extra%d.go", name, k), "// " + name}}
+			p.gen = okStep(goodGen(p.genFiles))
+			if i >= len(patterns) && r.Chance(1, 3) { // the first rounds are all-conforming
+				which := []string{"hs", "gen", "bye"}[r.Intn(3)]
+				good := map[string][]byte{"hs": goodHs(name, true), "gen": goodGen(p.genFiles), "bye": goodBye()}[which]
+				fs := stepFaults(r, methods[which], good)
+				f := fs[r.Intn(len(fs))]
+				p = withStep(p, which, f)
+				kinds = append(kinds, fmt.Sprintf("%s#%d.%s:%s", name, k, which, f.kind))
+			}
+			sc.plugins = append(sc.plugins, p)
+		}
+		sc.label += " " + strings.Join(kinds, ",")
+		scs = append(scs, sc)
+	}
+	c16Check(c, scs, "same-name-plugins")
+	scs = nil
+
 	// 4. a plugin that stays alive without completing its reply blocks the host (outside the
 	// property's fault list; confirms the model's `hang` outcome)
 	for _, which := range []string{"hs", "gen", "bye"} {
@@ -744,7 +839,7 @@ func runC16(c *checker, r *rng.R) {
 	c16PluginMain(c, r)
 	c16Frames(c, r)
 	c.flush()
-	c.rep.Rule = "scenarios = the real thriftrw binary + 1..3 fake plugins, each with a script (bytes written per request in given write calls, exit points, exit status): conforming; one plugin x {handshake, generate, goodbye} x {ok in 1-byte/random writes, exception envelope, garbage frame, empty frame, wrong envelope type, exit before/after reading, oversized prefixes, truncation at EVERY byte offset, handshake/generate field variants}; 2..3 plugins with independent random faults; blocking plugins; + plugin.Main over in-memory pipes under random segmentations; + frame Reader/Writer under random segmentations and a lowered fast-path threshold. Compared: per-plugin event log, exit status, written files, plugins named on stderr, request bytes. non-trivial = some fault or >1 plugin; distinct by script"
+	c.rep.Rule = "scenarios = the real thriftrw binary + 1..3 fake plugins, each with a script (bytes written per request in given write calls, exit points, exit status): conforming; one plugin x {handshake, generate, goodbye} x {ok in 1-byte/random writes, exception envelope, garbage frame, empty frame, wrong envelope type, exit before/after reading, oversized prefixes, truncation at EVERY byte offset, handshake/generate field variants}; 2..3 plugins with independent random faults; 2..3 plugins of which two or three are given under the SAME name (separate processes); blocking plugins; + plugin.Main over in-memory pipes under random segmentations; + frame Reader/Writer under random segmentations and a lowered fast-path threshold. Compared: per-plugin event log, exit status, written files, plugins named on stderr, request bytes. non-trivial = some fault or >1 plugin; distinct by script"
 	c.rep.Notes = append(c.rep.Notes,
 		"proved: host automaton properties over arbitrary plugin byte streams; observed only: os/exec, pipes, process reaping (log must end in `exit` when the host exits; no surviving pids), goroutine scheduling of concurrent.Range")
 }
